@@ -322,7 +322,7 @@ func exhaustive(r *vlib.Run) {
 }
 
 func seqRandom(r *vlib.Run) {
-	n := r.N(4000, 100000)
+	n := r.N(20000, 200000)
 	if r.Race {
 		n /= 20
 	}
@@ -393,7 +393,7 @@ func main() {
 		ID: "C11",
 		Rule: "exhaustive: every sequence of <= 7 (thorough 8) operations over {Insert a, Insert b, Next, Close, Len, IsClosed} on a fresh queue (Next with an already-cancelled context when the model says it would block), each result compared with the model, followed by a final Len/IsClosed/Close/drain/refused-Insert comparison; counted when >= 1 delivery and (a coalesced insert, a refused insert or a second delivery) occurred. " +
 			"seqrandom: seeded sequential histories of 10-80 operations over 2-6 items of mixed dynamic type incl. Next with a cancelled context; counted when >= 2 deliveries and >= 1 coalesced delivery. " +
-			"concurrent: P in 1..8 producers, one consumer, 2-20 items, 50-2000 inserts in 1-20 drained phases, ending by drain+Close, Close right after the producers, Close mid-stream, cancel mid-stream or cancel when idle; counted when the consumer was told closed (lower bound judged), >= 1 coalesced delivery and >= 1 order pair were judged; hashed by the observed delivery sequence. " +
+			"concurrent: P in 1..8 producers, one consumer, 2-20 items, 50-2000 inserts in 1-200 drained phases, ending by drain+Close, Close right after the producers, Close mid-stream, cancel mid-stream or cancel when idle; counted when the consumer was told closed (lower bound judged), >= 1 coalesced delivery and >= 1 order pair were judged; hashed by the observed delivery sequence. " +
 			"forced: scripted windows with gates at coalesce.next.empty / coalesce.insert.checked; counted when every requested gate was reached and the oracle judged the history; hashed by script and observed results.",
 		Assumptions: []string{
 			"the model (ordered list of distinct pending items, count per item, closed flag) written from the property statement is the specification of single-goroutine behaviour",
